@@ -519,3 +519,46 @@ func NameDER(groups ...[]ATV) []byte {
 
 // EKUOID returns the object identifier of a known extended key usage.
 func EKUOID(e x509.ExtKeyUsage) asn1.ObjectIdentifier { return ekuOIDs[e] }
+
+// V1Root builds a self-signed X.509 VERSION 1 certificate (no version field, no
+// extensions) by hand: crypto/x509 only ever creates v3 certificates.
+func V1Root(k *Key, cn string) (*x509.Certificate, error) {
+	return V1RootNamed(k, NameDER([]ATV{{OID: OIDCN, Value: cn, Tag: 19}}))
+}
+
+// V1RootNamed is V1Root with the exact DER of the name.
+func V1RootNamed(k *Key, name []byte) (*x509.Certificate, error) {
+	spki, err := x509.MarshalPKIXPublicKey(k.Public())
+	if err != nil {
+		return nil, err
+	}
+	algDER, _ := SignTBS(k, nil)
+	var tbs cryptobyte.Builder
+	tbs.AddASN1(cbasn1.SEQUENCE, func(b *cryptobyte.Builder) {
+		b.AddASN1BigInt(NextSerial())
+		b.AddBytes(algDER)
+		b.AddBytes(name)
+		b.AddASN1(cbasn1.SEQUENCE, func(b *cryptobyte.Builder) {
+			b.AddASN1GeneralizedTime(Past)
+			b.AddASN1GeneralizedTime(Future)
+		})
+		b.AddBytes(name)
+		b.AddBytes(spki)
+	})
+	tbsDER, err := tbs.Bytes()
+	if err != nil {
+		return nil, err
+	}
+	_, sig := SignTBS(k, tbsDER)
+	var out cryptobyte.Builder
+	out.AddASN1(cbasn1.SEQUENCE, func(b *cryptobyte.Builder) {
+		b.AddBytes(tbsDER)
+		b.AddBytes(algDER)
+		b.AddASN1BitString(sig)
+	})
+	der, err := out.Bytes()
+	if err != nil {
+		return nil, err
+	}
+	return x509.ParseCertificate(der)
+}
